@@ -48,7 +48,7 @@ def run_demo(d, wt):
     return sh("timeout 600 mpirun --oversubscribe -n 4 ./demo", cwd=work, timeout=700)
 
 
-def failed(rc, out):
+def demo_failed(rc, out):
     """did the demonstration report a failure?  (some run.sh scripts end with an echo and always exit 0)"""
     if rc != 0:
         return True
@@ -96,8 +96,8 @@ def confirm(name):
                 res["suite"]["first_run_failed"] = failed
                 res["suite"]["rerun_failed_line"] = m2.group(0) if m2 else out2[-300:]
                 res["suite"]["passed_all"] = bool(m2 and m2.group(2) == "0")
-        res["demo_fails_with_change"] = failed(rc1, out1)
-        res["demo_passes_without_change"] = not failed(rc0, out0)
+        res["demo_fails_with_change"] = demo_failed(rc1, out1)
+        res["demo_passes_without_change"] = not demo_failed(rc0, out0)
         res["confirmed"] = bool(res.get("suite_builds") and res.get("suite", {}).get("passed_all") and res["demo_fails_with_change"] and res["demo_passes_without_change"])
     finally:
         sh(f"git -C /repo worktree remove --force {wt}")
